@@ -217,15 +217,28 @@ impl NoGoodStore {
                 DuplicateElemination::None => true,
                 DuplicateElemination::Equiv => !self.store[idx].contains(&nogood),
                 DuplicateElemination::Subsume => {
-                    self.store
-                        .iter_mut()
+                    // a stored nogood which is contained in the new one already excludes everything the new one excludes
+                    if self
+                        .store
+                        .iter()
                         .enumerate()
-                        .for_each(|(cur_idx, ng_vec)| {
-                            if idx >= cur_idx {
-                                ng_vec.retain(|ng| !ng.is_violating(&nogood));
-                            }
-                        });
-                    true
+                        .any(|(cur_idx, ng_vec)| {
+                            idx >= cur_idx && ng_vec.iter().any(|ng| ng.is_violating(&nogood))
+                        })
+                    {
+                        false
+                    } else {
+                        // the new nogood subsumes all stored nogoods which contain it
+                        self.store
+                            .iter_mut()
+                            .enumerate()
+                            .for_each(|(cur_idx, ng_vec)| {
+                                if idx <= cur_idx {
+                                    ng_vec.retain(|ng| !nogood.is_violating(ng));
+                                }
+                            });
+                        true
+                    }
                 }
             } {
                 self.store[idx].push(nogood);
